@@ -458,7 +458,9 @@ func (env *SpecEnv) binary(x *EBin) SVal {
 	}
 	if l.Sort == SInt && r.Sort == SInt {
 		switch x.Op {
-		case "+", "-", "*":
+		case "*":
+			return SVal{V: Sc{ex.cx.mul(l, r)}, T: rt}
+		case "+", "-":
 			return SVal{V: Sc{app(SInt, x.Op, l, r)}, T: rt}
 		case "/":
 			return SVal{V: Sc{tdiv(l, r)}, T: rt}
@@ -1253,7 +1255,11 @@ func (env *SpecEnv) havocGhost(post *State, g *GhostField, ref Term) {
 		h := ex.heap(post, "G!"+g.Name, arrSort(SRef, arrSort(ex.cx.intS(), es)))
 		ex.setHeap(post, "G!"+g.Name, store(h, ref, ex.cx.fresh("g_"+g.Name, arrSort(ex.cx.intS(), es))))
 		hl := ex.heap(post, "G!"+g.Name+"#len", arrSort(SRef, ex.cx.intS()))
-		ex.setHeap(post, "G!"+g.Name+"#len", store(hl, ref, ex.cx.fresh("g_"+g.Name+"_len", ex.cx.intS())))
+		nl := ex.cx.fresh("g_"+g.Name+"_len", ex.cx.intS())
+		if ex.cx.mode == "int" {
+			ex.cx.assume(app(SBool, "<=", intLit(0), nl))
+		}
+		ex.setHeap(post, "G!"+g.Name+"#len", store(hl, ref, nl))
 	}
 }
 
